@@ -1,5 +1,6 @@
 import Ruint.Gen.WordsLehmer
 import Ruint.Model.Gcd
+import Ruint.Gen.WordsGcd
 /-! Driver for C12: evaluates the models (`Ruint.Lehmer.*`, `Ruint.Gcd.*`) and the spec column.
     For matrices and cofactors the spec is a predicate on the implementation's actual output. -/
 open Ruint Ruint.Lehmer Ruint.Gcd
@@ -119,10 +120,12 @@ def handle (args : List String) (impl : String) : String × String :=
     let M := 2 ^ bits
     match op with
     | "gcd" =>
-      let m := match gcd bits a b with | some g => toHex g | none => "panic"
+      -- `Uint::gcd` GENERATED from src/gcd.rs + algorithms/gcd/mod.rs in value mode (`Props/C12.gen_gcd_eq`) on canonical operands
+      let m := match (if a < M ∧ b < M then Ruint.Gen.val_uint_gcd (min a b + 2) bits (nlimbs bits) a b else gcd bits a b) with
+        | some g => toHex g | none => "panic"
       (m, match hypStr bits a b with | none => toHex (Nat.gcd a b) | some w => "pred:false " ++ w)
     | "lcm" =>
-      let m := match lcm bits a b with
+      let m := match (if a < M ∧ b < M then Ruint.Gen.val_uint_lcm (min a b + 2) bits (nlimbs bits) a b else lcm bits a b) with
         | some (some v) => "some " ++ toHex v
         | some none => "none"
         | none => "panic"
@@ -130,7 +133,8 @@ def handle (args : List String) (impl : String) : String × String :=
         else if a * b / Nat.gcd a b < M then "some " ++ toHex (a * b / Nat.gcd a b) else "none"
       (m, spec)
     | "gcdext" =>
-      let m := match gcdExtended bits a b with
+      let m := match (if a < M ∧ b < M then Ruint.Gen.val_uint_gcd_extended (min a b + 2) bits (nlimbs bits) a b
+                      else gcdExtended bits a b) with
         | some (g, x, y, s) => toHex g ++ " " ++ toHex x ++ " " ++ toHex y ++ " " ++ boolStr s
         | none => "panic"
       let spec := match iw with
